@@ -699,6 +699,7 @@ inline void GenChildren(Source& s, Lane l, DynNode& n, const GenCfg& g, int dept
 	// homogeneous arrays are what containers produce; mixed arrays are what tuples/custom types produce
 	const bool homogeneous = !object && s.chance(l, 1, 2);
 	const bool cstrKeys = object && s.chance(l, 1, 2);
+	const bool carrKeys = object && !cstrKeys && s.chance(l, 1, 3);
 	K hk = K::I32;
 	for (uint32_t i = 0; i < count && budget > 0; ++i)
 	{
@@ -736,6 +737,7 @@ inline void GenChildren(Source& s, Lane l, DynNode& n, const GenCfg& g, int dept
 			else
 			{
 				k.cstr = cstrKeys;
+				k.carr = carrKeys;
 				k.s = GenKeyName(s, l, g.archive, i);
 				// an integer key is converted to its decimal text by the text archives: keep string keys distinct from those
 				if (k.s.find_first_not_of("-0123456789") == std::string::npos) k.s = "s" + k.s;
@@ -754,6 +756,7 @@ inline void GenChildren(Source& s, Lane l, DynNode& n, const GenCfg& g, int dept
 					for (auto& o : n.keys) if (o == k) { k.s += "u"; again = true; }
 				}
 			}
+			k.Seal();
 			n.keys.push_back(std::move(k));
 		}
 	}
